@@ -344,6 +344,7 @@ package bkl
 //@              (repInt (heap EvalContext.Vars) (heap Document.Data) docs ecs (old (EvalContext.Vars ec)) (old (Document.Data doc)) "$repeat" allocTop)))
 //
 //@ func repeatDocGenFromInt(doc, ec, name, count) (docs, ecs, err)
+//@   property C09
 //@   uses rappLen, rlnthSnoc
 //@   preserves-existing
 //@   ensures (not (isErr err))
@@ -362,6 +363,7 @@ package bkl
 //@                   (>= (rlnth docs j) (old allocTop)) (< (rlnth docs j) allocTop))))
 //
 //@ func repeatDocGenFromMap(doc, ec, rs) (docs, ecs, err)
+//@   property C09, C12
 //@   uses rappLen
 //@   ensures (=> (not (isErr err)) (= (rllen docs) (rllen ecs)))
 //@   loop 2
@@ -799,6 +801,7 @@ package bkl
 //@     invariant (forall ((r Int)) (=> (< r (old allocTop)) (and (= (Document.Parents r) (old (Document.Parents r))) (= (Document.Data r) (old (Document.Data r))) (= (Document.ID r) (old (Document.ID r))))))
 //
 //@ func EvalContext.Clone(ec) (res)
+//@   property C09
 //@   preserves-existing
 //@   ensures (and (>= res allocTop) (not (= res 0)))
 //@   ensures (= (EvalContext.Vars res) (old (EvalContext.Vars ec)))                                         [C12]
@@ -995,3 +998,9 @@ package bkl
 //
 //@ func file.toAbsolutePaths(f, paths) (res, err)
 //@   property C03
+
+//@ func NewEvalContext() (res)
+//@   property C09
+//@   preserves-existing
+//@   ensures (and (>= res allocTop) (not (= res 0)))
+//@   ensures (= (EvalContext.Vars res) (VMap (envFold emptyM osEnviron)))                                    [C09] [C13]
